@@ -43,14 +43,14 @@ func (a *app) HandleInactive(ctx netty.InactiveContext, ex netty.Exception) {
 }
 
 type obs struct {
-	f         *mock.Factory
-	bs        netty.Bootstrap
-	holder    netty.ChannelHolder
-	apps      []*app
-	cbErrs    map[int][]error // listener index -> callback errors
+	f                    *mock.Factory
+	bs                   netty.Bootstrap
+	holder               netty.ChannelHolder
+	apps                 []*app
+	cbErrs               map[int][]error // listener index -> callback errors
 	listenerClosedByUser map[int]bool
-	connectErr []error
-	shutdownDone bool
+	connectErr           []error
+	shutdownDone         bool
 }
 
 type plan struct {
@@ -280,10 +280,10 @@ func build(tier string) []*explore.Scenario {
 
 func main() {
 	explore.Main(explore.Spec{
-		Property: "C13",
-		Rule:     "all interleavings up to 2 (thorough 3) preemptions of k <= 2 listeners started with Listen(url).Async(cb), n <= 2 scripted inbound connections, m <= 2 client Connects, a Shutdown goroutine (or Shutdown issued right after the Async calls), optionally Listener.Close and a re-listen on the same url, over a scheduler-visible mock transport factory / acceptor, the default holder and the default queued channel factory; oracle at quiescence: bootstrap context cancelled; every acceptor ever created closed with no Accept outstanding; every Async callback ran once with the server-closed error; every accepted / connected transport belongs to a channel whose transport was closed once and whose inactive was delivered once; holder empty; no goroutine left. distinct = distinct end states",
-		Assume:   []string{"channels created with a user-supplied context that is not derived from the bootstrap context and bootstraps without a holder are out of scope", "Listen calls issued after Shutdown returned are out of scope"},
-		Build:    build,
+		Property:    "C13",
+		Rule:        "all interleavings up to 2 (thorough 3) preemptions of k <= 2 listeners started with Listen(url).Async(cb), n <= 2 scripted inbound connections, m <= 2 client Connects, a Shutdown goroutine (or Shutdown issued right after the Async calls), optionally Listener.Close and a re-listen on the same url, over a scheduler-visible mock transport factory / acceptor, the default holder and the default queued channel factory; oracle at quiescence: bootstrap context cancelled; every acceptor ever created closed with no Accept outstanding; every Async callback ran once with the server-closed error; every accepted / connected transport belongs to a channel whose transport was closed once and whose inactive was delivered once; holder empty; no goroutine left. distinct = distinct end states",
+		Assume:      []string{"channels created with a user-supplied context that is not derived from the bootstrap context and bootstraps without a holder are out of scope", "Listen calls issued after Shutdown returned are out of scope"},
+		Build:       build,
 		MinOutcomes: 2,
 	})
 }
